@@ -7,7 +7,7 @@ namespace TbbVerif.C12
 namespace SplitOrder
 open CasList (succNode isSucc isIns hasKey)
 
-theorem sinv_init (cfg : Cfg) (bc : Nat) (progs : List (List Op)) (hbc : BcOk bc) : SInv cfg (initSt bc progs) := by
+theorem sinv_init (cfg : Cfg) (bc : Nat) (progs : List (List Op)) (hbc : BcOk bc) : SInv cfg (initSt cfg bc progs) := by
   refine ⟨good_init _, ?_, hbc, ?_, by simp [initSt], by simp [initSt], contig_init _⟩
   · intro b d hd; simp [initSt] at hd
   · intro t th hth
